@@ -135,6 +135,10 @@ func hostileCatalogue(r *rand.Rand, base []byte) []hostile {
 	add("package-total-0-with-fragment-bit", "close", hb, fr(hdrSpec{id: 0x0801, serial: 3, frag: 1, total: 0, no: 1, body: []byte{1, 2, 3}}), hb)
 	add("package-total-65535", "close", fr(hdrSpec{id: 0x0801, serial: 3, frag: 1, total: 65535, no: 1, body: []byte{1}}),
 		fr(hdrSpec{id: 0x0801, serial: 4, frag: 1, total: 65535, no: 65535, body: []byte{1}}), hb)
+	add("package-totals-disagree", "close", hb, fr(hdrSpec{id: 0x0801, serial: 3, frag: 1, total: 2, no: 1, body: []byte{1, 2, 3}}),
+		fr(hdrSpec{id: 0x0801, serial: 4, frag: 1, total: 3, no: 2, body: []byte{4, 5}}), fr(hdrSpec{id: 0x0801, serial: 5, frag: 1, total: 3, no: 3, body: []byte{6}}),
+		fr(hdrSpec{id: 0x0704, serial: 6, frag: 1, total: 3, no: 1, body: []byte{1}}), fr(hdrSpec{id: 0x0704, serial: 7, frag: 1, total: 2, no: 2, body: []byte{2}}),
+		fr(hdrSpec{id: 0x0704, serial: 8, frag: 1, total: 1, no: 3, body: []byte{3}}), hb)
 	add("unknown-ids", "close", fr(hdrSpec{id: 0x0f0f, serial: 1}), fr(hdrSpec{id: 0xffff, serial: 2, body: randBytes(r, 40)}), fr(hdrSpec{id: 0, serial: 3}))
 	// 0x0102 (2019) whose authentication code is 255 bytes long: a legal message
 	b := append([]byte{255}, randBytes(r, 255)...)
@@ -301,6 +305,16 @@ func init() {
 			}
 			probe(h.name)
 		}
+		// a client that presents the established session's key is refused; the established session keeps its registration
+		for i := 0; i < 3; i++ {
+			d := l.dial(cphone, 0)
+			l.rec.log(d.idx, "D", "hostile", "name", "duplicate-of-the-established-key")
+			d.send(d.frame(0x0002, nil))
+			time.Sleep(5 * time.Millisecond)
+			d.close(i%2 == 0)
+			time.Sleep(5 * time.Millisecond)
+		}
+		probe("duplicate-of-the-established-key")
 		for _, t := range hung {
 			t.close(true)
 		}
